@@ -60,6 +60,8 @@ Template(n, now, ds) ==
     [] n = "B3"  -> Batch(A1, D, 1, 5, ts, e1, Sched3(e1 + 3), 3, 1)
     [] n = "B4"  -> Batch(A1, D, Half, 9, ts, e2, <<[t |-> e2 + 2, w |-> D]>>, 1, Half)
     [] n = "B5"  -> Batch(A1, D, Half, 4, ts, e1, <<>>, 3, Half)
+    [] n = "F4"  -> Fixed(A1, 3 * Half, 2, ts, e2, <<>>)               \* price 1.5, two coins: sold out by one bid; a paying bid of 1 is worth no coin
+    [] n = "B6"  -> Batch(A1, D, Half, 4, ts, e1, <<>>, 3, 2 * D)        \* rate 2.0: once something had matched the auction never extends again
     [] n = "F100" -> Fixed(A1, D, 30, ts, e2, [k \in 1..100 |-> [t |-> e2 + k, w |-> D \div 100]])
     [] n = "B100" -> Batch(A1, D, 1, 30, ts, e2, [k \in 1..100 |-> [t |-> e2 + 2 * k, w |-> D \div 100]], 2, Half)
     [] n = "B30"  -> Batch(A1, D, 1, 20, ts, e1, <<>>, 30, 1)
